@@ -4,17 +4,19 @@
 # Prints one line per check: <Cxx> exit=<code> [signatures]. Never leaves /repo modified.
 set -u
 P="$1"; shift
-cd /repo || exit 2
+VERIF="${VERIF:-$(cd "$(dirname "$0")/.." && pwd)}"
+REPO="${REPO:-$(cd "$VERIF/../repo" && pwd)}"
+cd "$REPO" || exit 2
 if [ -n "$(git status --porcelain --untracked-files=no)" ]; then echo "/repo is not clean" >&2; exit 2; fi
-TMP=/verif/work/sens-$$.diff; mkdir -p /verif/work
+TMP="$VERIF/work/sens-$$.diff"; mkdir -p "$VERIF/work"
 case "$P" in
   revert:*) git diff "${P#revert:}" "${P#revert:}^" -- src > "$TMP" ;;
   *) cp "$P" "$TMP" ;;
 esac
 if ! git apply "$TMP"; then echo "patch does not apply" >&2; rm -f "$TMP"; exit 2; fi
-trap 'git -C /repo checkout -- . ; rm -f "$TMP"' EXIT
+trap 'git -C "$REPO" checkout -- . ; rm -f "$TMP"' EXIT
 for id in "$@"; do
-  out=$(cd /verif && VERIF_NO_EVIDENCE=1 ./check "$id" quick 2>&1); code=$?
+  out=$(cd "$VERIF" && VERIF_NO_EVIDENCE=1 ./check "$id" quick 2>&1); code=$?
   sigs=$(echo "$out" | grep '^--- ' | sed 's/^--- \([^ ]*\).*/\1/' | sort -u | tr '\n' ' ')
   echo "$id exit=$code $sigs"
   if [ "${SENS_VERBOSE:-0}" = 1 ]; then echo "$out" | cut -c1-400 | tail -8; fi
